@@ -191,6 +191,8 @@ type Server struct {
 	watchers   map[Res][]*watcher
 	// RejectDataMutation counts attempts to change ControllerRevision.data (422).
 	RejectDataMutation int
+	// AfterCall, if set, is called after every recorded call, outside the server lock.
+	AfterCall func(c *Call)
 	// OnWrite, if set, is called (under the lock) after every applied change.
 	OnWrite func(res Res, before, after runtime.Object)
 }
@@ -306,6 +308,14 @@ func (s *Server) react(a ktesting.Action, pc bool) (bool, runtime.Object, error)
 	if _, ok := s.store[res]; !ok {
 		return true, nil, apierrors.NewInternalError(fmt.Errorf("simapi: unsupported resource %q", res))
 	}
+	var done *Call
+	defer func() {
+		// after the server lock is released: lets the engine model an informer that catches up
+		// while the reconcile is still running
+		if done != nil && s.AfterCall != nil {
+			s.AfterCall(done)
+		}
+	}()
 	s.mu.Lock()
 	defer s.mu.Unlock()
 
@@ -356,6 +366,7 @@ func (s *Server) react(a ktesting.Action, pc bool) (bool, runtime.Object, error)
 	if ret != nil && c.Verb != "list" {
 		c.Result = ret.DeepCopyObject()
 	}
+	done = c
 	return true, ret, err
 }
 
